@@ -160,8 +160,11 @@ mutual
         let fs ← fill root slots false
         if adds.length = 0 then finishMembers fs c1 ood1
         else
-          let (slots2, c2, ood2) ← retry (decPass adds root.length fuel) (adds.length + 1)
-                                     (List.replicate adds.length none) c1
+          -- `decode_members(..., out_of_data=out_of_data)`: `while not out_of_data:` (commit 300e5ac)
+          let (slots2, c2, ood2) ←
+            (if ood1 then .ok (List.replicate adds.length none, c1, true)
+             else retry (decPass adds root.length fuel) (adds.length + 1)
+                    (List.replicate adds.length none) c1)
           let fs2 ← fill adds slots2 true
           finishMembers (fs ++ fs2) c2 ood2
     | .sequenceOf e _, tg, fuel, bs => do
@@ -249,5 +252,9 @@ example : (decodeWithLength (.sequence (.cons "a" .mandatory .boolean .nil) fals
     [0x30, 0x80, 0x80, 1, 0xff, 0, 0]).toOption.map (·.2) = some 7 := by rfl
 example : (decodeWithLength (.octetString ⟨0, none, false⟩) [0x24, 0x80, 4, 1, 0xaa, 0x24, 3, 4, 1, 0xbb, 0, 0]).toOption.map (·.2)
     = some 12 := by rfl
+
+-- regression (commit 300e5ac): indefinite-length SEQUENCE whose type has extension additions, none present
+example : (decode (.sequence (.cons "a" .mandatory .boolean .nil) true (.cons "b" .optional (.integer ⟨none, none, false⟩) .nil))
+    [0x30, 0x80, 0x80, 1, 0xff, 0, 0]).isOk = true := by rfl
 
 end Asn1.BerCodec
